@@ -159,6 +159,7 @@ Proof.
     b_store_temporary b_restore_temporary]; try reflexivity.
   - intros s x y l. destruct s; reflexivity.
   - intros s x l. destruct s; reflexivity.
+  - intros t i. unfold r_add_and_jump. destruct (addi_fits i); reflexivity.
   - intros o t x y. destruct o; reflexivity.
   - intros t lc. apply erase_sh.
   - intros t n lc. apply share_sh.
